@@ -537,9 +537,12 @@ fn logged_call(log: &Log, w: &Mutex<World>, case: &str, th: &str, call: &Value) 
     let n1 = gi(call, "n1").clamp(i32::MIN as i64, i32::MAX as i64);
     log.pending.lock().unwrap().insert(th.to_string(), (f.clone(), Instant::now()));
     log.ev(json!({"ev":"Inv","case":case,"th":th,"fn":f,"h":h,"name":gs(call,"name"),"n1":n1,"n2":gi(call,"n2"),"dat":call["dat"]}));
+    LOCKS.with(|l| l.borrow_mut().clear());
     let r = exec(w, call);
     log.pending.lock().unwrap().remove(th);
-    log.ev(json!({"ev":"Ret","case":case,"th":th,"fn":f,"st":"ok","ret":r.ret,"out":r.out,"err":r.err,"rres":r.rres,"canary":r.canary}));
+    let locks: Vec<Value> = LOCKS.with(|l| l.borrow_mut().drain(..).map(|(k, held)| json!({"l": k, "held": held})).collect());
+    log.ev(json!({"ev":"Ret","case":case,"th":th,"fn":f,"st":"ok","ret":r.ret,"out":r.out,"err":r.err,"rres":r.rres,"canary":r.canary,
+                  "lt": LTRACE.load(Ordering::SeqCst) && th != "T0", "locks": locks}));
     if let Some((hh, m)) = r.sync {
         log.ev(json!({"ev":"Sync","case":case,"th":th,"h":hh,"rmap":m}));
     }
@@ -549,6 +552,69 @@ fn logged_call(log: &Log, w: &Mutex<World>, case: &str, th: &str, call: &Value) 
 // schedule control
 // ------------------------------------------------------------------------------------------
 thread_local! { static TH_NAME: std::cell::RefCell<String> = const { std::cell::RefCell::new(String::new()) }; }
+// lock acquisitions of the call in progress on this thread: (lock, locks found held at that moment)
+thread_local! { static LOCKS: std::cell::RefCell<Vec<(String, Vec<String>)>> = const { std::cell::RefCell::new(Vec::new()) }; }
+/// lock-trace mode ("lockorder" cases, single thread): at every sync point the three table locks are probed
+static LTRACE: AtomicBool = AtomicBool::new(false);
+
+/// Probing whether a table lock is held right now: a helper thread calls an API function that takes exactly
+/// that lock (with a never-issued handle). No answer while the probed thread is parked = the lock is held.
+struct Probe {
+    tx: std::sync::mpsc::Sender<u64>,
+    rx: Mutex<std::sync::mpsc::Receiver<u64>>,
+    next: AtomicUsize,
+}
+static PROBES: std::sync::OnceLock<Vec<(&'static str, Probe)>> = std::sync::OnceLock::new();
+fn probes() -> &'static Vec<(&'static str, Probe)> {
+    PROBES.get_or_init(|| {
+        ["ARCH", "FILES", "FINDS"].iter().map(|name| {
+            let (tx, rxq) = std::sync::mpsc::channel::<u64>();
+            let (txr, rx) = std::sync::mpsc::channel::<u64>();
+            let which = *name;
+            std::thread::spawn(move || {
+                let bogus = 0x7fff_fff1usize as storm::HANDLE;
+                let nm = CString::new("zz").unwrap();
+                while let Ok(id) = rxq.recv() {
+                    unsafe {
+                        match which {
+                            "ARCH" => { storm::SFileHasFile(bogus, nm.as_ptr()); }
+                            "FILES" => { storm::SFileGetFileSize(bogus, std::ptr::null_mut()); }
+                            _ => { storm::SFileFindClose(bogus); }
+                        }
+                    }
+                    let _ = txr.send(id);
+                }
+            });
+            (which, Probe { tx, rx: Mutex::new(rx), next: AtomicUsize::new(1) })
+        }).collect()
+    })
+}
+/// Locks (other than `about`) that are held while the calling thread is parked at a sync point.
+fn held_locks(about: &str) -> Vec<String> {
+    let mut held = Vec::new();
+    for (name, p) in probes().iter() {
+        if *name == about {
+            continue;
+        }
+        let id = p.next.fetch_add(1, Ordering::SeqCst) as u64;
+        let rx = p.rx.lock().unwrap();
+        let _ = p.tx.send(id);
+        let t0 = Instant::now();
+        let mut answered = false;
+        // generous: a free lock answers in microseconds; only "no answer for 2 x 250 ms" counts as held
+        while t0.elapsed() < Duration::from_millis(500) {
+            match rx.recv_timeout(Duration::from_millis(250)) {
+                Ok(got) if got == id => { answered = true; break; }
+                Ok(_) => continue,           // late answer of an earlier probe
+                Err(_) => continue,
+            }
+        }
+        if !answered {
+            held.push(name.to_string());
+        }
+    }
+    held
+}
 
 /// Turn-based scheduler used with the `verif_sync` hook: a thread arriving at a sync point parks
 /// until the controller grants it a turn; it then runs up to its next sync point.
@@ -575,6 +641,9 @@ fn sync_hook(point: &'static str) {
     if me.is_empty() {
         return;
     }
+    let lock = point.rsplit('.').next().unwrap_or("?");
+    let held = if LTRACE.load(Ordering::SeqCst) { held_locks(lock) } else { Vec::new() };
+    LOCKS.with(|l| l.borrow_mut().push((lock.to_string(), held)));
     let s = sched();
     let mut g = s.m.lock().unwrap();
     if !g.active || g.free_run {
@@ -645,6 +714,7 @@ fn run_case(log: &Arc<Log>, idx: usize, case: &Value, limit: Duration) -> bool {
     let use_gate = case.get("gate").and_then(|x| x.as_bool()).unwrap_or(false) && !hook;
     let turns: Vec<String> = case.get("turns").and_then(|x| x.as_array()).map(|a| a.iter().filter_map(|x| x.as_str().map(String::from)).collect()).unwrap_or_default();
     let use_turns = hook && !turns.is_empty();
+    let ltrace = hook && case.get("label").and_then(|x| x.as_str()) == Some("lockorder");
 
     let (l2, w2, c2, d2) = (log.clone(), w.clone(), cid.clone(), done.clone());
     let setup_t = std::thread::spawn(move || {
@@ -689,6 +759,7 @@ fn run_case(log: &Arc<Log>, idx: usize, case: &Value, limit: Duration) -> bool {
         *g = SchedState::default();
         g.active = true;
     }
+    LTRACE.store(ltrace, Ordering::SeqCst);
     let mut handles = Vec::new();
     for th in &order {
         let Some(p) = progs.get(th) else { continue };
@@ -755,6 +826,7 @@ fn run_case(log: &Arc<Log>, idx: usize, case: &Value, limit: Duration) -> bool {
     }
     let t0 = Instant::now();
     let mut ok = true;
+    let limit = if ltrace { limit + Duration::from_secs(8) } else { limit };
     while done.load(Ordering::SeqCst) < nthreads {
         if t0.elapsed() > limit {
             ok = false;
@@ -768,6 +840,7 @@ fn run_case(log: &Arc<Log>, idx: usize, case: &Value, limit: Duration) -> bool {
         g.active = false;
         s.cv.notify_all();
     }
+    LTRACE.store(false, Ordering::SeqCst);
     if ok {
         for h in handles {
             let _ = h.join();
@@ -829,7 +902,7 @@ fn worker(a: &Args) -> ! {
             let mut p = p;
             p.sort();
             for (th, f) in p {
-                log.ev(json!({"ev":"Ret","case":cid,"th":th,"fn":f,"st":"hang","ret":0,"out":[],"err":"other","rres":"-","canary":true}));
+                log.ev(json!({"ev":"Ret","case":cid,"th":th,"fn":f,"st":"hang","ret":0,"out":[],"err":"other","rres":"-","canary":true,"lt":false,"locks":[]}));
             }
             std::fs::write(format!("{stem}.resume"), format!("{}", i + 1)).ok();
             std::process::exit(3);
@@ -911,7 +984,7 @@ fn main() {
             o.sort();
             let st = if status.is_none() { "hang" } else { "abort" };
             for (th, (f, cid)) in o {
-                writeln!(out, "{}", json!({"ev":"Ret","case":cid,"th":th,"fn":f,"st":st,"ret":0,"out":[],"err":"other","rres":"-","canary":true})).unwrap();
+                writeln!(out, "{}", json!({"ev":"Ret","case":cid,"th":th,"fn":f,"st":st,"ret":0,"out":[],"err":"other","rres":"-","canary":true,"lt":false,"locks":[]})).unwrap();
             }
             start = idx + 1;
         }
